@@ -96,6 +96,43 @@ def _lookup(fn):
         return {"exc": type(e).__name__, "number": 0, "choice": "", "ops": []}
 
 
+CENTERING = {1: [], 2: [(6, 6, 6)], 3: [(8, 4, 4), (4, 8, 8)], 4: [(0, 6, 6), (6, 0, 6), (6, 6, 0)],
+             5: [(0, 6, 6)], 6: [(6, 0, 6)], 7: [(6, 6, 0)]}
+NROT = 19683
+
+
+def _shift(c, v):
+    r, t = c % NROT, c // NROT
+    tr = [(t // 144) % 12, (t // 12) % 12, t % 12]
+    tr = [(a + b) % 12 for a, b in zip(tr, v)]
+    return r + NROT * (tr[0] * 144 + tr[1] * 12 + tr[2])
+
+
+def _inverted(c):
+    r, t = c % NROT, c // NROT
+    digs = [(r // 3 ** (8 - k)) % 3 for k in range(9)]
+    r2 = sum((2 - d) * 3 ** (8 - k) for k, d in enumerate(digs))
+    tr = [(-((t // 144) % 12)) % 12, (-((t // 12) % 12)) % 12, (-(t % 12)) % 12]
+    return r2 + NROT * (tr[0] * 144 + tr[1] * 12 + tr[2])
+
+
+def ref_reduce(codes, latt):
+    """A SHELX-style reduction of a full operation list for the given LATT, written independently of the library: keep an
+    operation unless it, or (LATT > 0) its inversion partner, or a centring translate of either is already kept."""
+    vecs = [(0, 0, 0)] + CENTERING[abs(latt)]
+    kept = [16484]
+    for c in codes:
+        images = set()
+        for v in vecs:
+            x = _shift(c, v)
+            images.add(x)
+            if latt > 0:
+                images.add(_inverted(x))
+        if not images & set(kept):
+            kept.append(c)
+    return kept
+
+
 def drive(recipe):
     import random
     from chmpy.crystal.space_group import SpaceGroup
@@ -155,6 +192,33 @@ def drive(recipe):
                 r = _lookup(lambda: SpaceGroup.from_symmetry_operations(lst, expand_latt=sg.latt))
                 if r != t["lookup_reduced"]:
                     t["lookup_reduced_again"] = r if r["exc"] else dict(r, exc="OtherFormDiffers")
+    # every other genuine SHELX description of the same group: any lattice type whose centring vectors are translations of
+    # the group (B-centred cells are LATT 6 whatever the table calls them), with a negative sign when the inversion-related
+    # operations are listed explicitly.  The library reduces the list for that LATT, and so does the harness (ref_reduce);
+    # whether a (list, LATT) pair IS a description of the group is decided by TLC (Describes).
+    t["alts"] = []
+    for latt in (1, -1, 2, -2, 3, -3, 4, -4, 5, -5, 6, -6, 7, -7):
+        a = {"latt": latt, "lib": [], "lib_exc": "", "ref": ref_reduce(t["ops"], latt),
+             "lk_lib": {"exc": "skipped", "number": 0, "choice": "", "ops": []},
+             "lk_ref": {"exc": "skipped", "number": 0, "choice": "", "ops": []}}
+        try:
+            red = reduced_symmetry_list(list(sg.symmetry_operations), latt)
+            a["lib"] = [int(s.integer_code) for s in red]
+            a["lk_lib"] = _lookup(lambda: SpaceGroup.from_symmetry_operations(list(red), expand_latt=latt))
+        except Exception as e:
+            a["lib_exc"] = type(e).__name__
+        by_code = {int(s.integer_code): s for s in sg.symmetry_operations}
+        if all(c in by_code for c in a["ref"]):
+            a["lk_ref"] = _lookup(lambda: SpaceGroup.from_symmetry_operations([by_code[c] for c in a["ref"]], expand_latt=latt))
+        t["alts"].append(a)
+    # the full list with matrices that were computed rather than decoded (entries one rounding step away from -1, 0, 1)
+    import numpy as _np
+    from chmpy.crystal.symmetry_operation import SymmetryOperation as _SO
+    t["lookup_noisy"] = []
+    for scale, shift in ((1.0 - 2.3e-16, 0.0), (1.0 + 2.3e-16, 1e-17), (1.0 - 4.5e-16, -1e-17)):
+        ops = [_SO(_np.asarray(s.rotation, dtype=float) * scale + shift, _np.asarray(s.translation, dtype=float) * scale)
+               for s in sg.symmetry_operations]
+        t["lookup_noisy"].append(_lookup(lambda: SpaceGroup.from_symmetry_operations(ops)))
     rng = random.Random(recipe["seed"])
     for _ in range(recipe["nperm"]):
         lst = list(sg.symmetry_operations)
